@@ -188,11 +188,8 @@ class BaseExtractor:
                 if subquery_flag is False:
                     if table_identifier.type == "file_reference":
                         tables.append(
-                            Path(
-                                escape_identifier_name(
-                                    table_identifier.segments[-1].raw
-                                )
-                            )
+                            # Path normalises the text itself (twice would lower-case a quoted path)
+                            Path(table_identifier.segments[-1].raw)
                         )
                     else:
                         tables.append(SqlFluffTable.of(table_identifier, alias=alias))
